@@ -95,48 +95,31 @@ Proof.
 Qed.
 
 
-Lemma in_file_outputs t i : In i (file_outputs t) <-> exists o, In o (all_outputs t) /\ o_type o = OFile /\ o_id o = i.
+Lemma in_path_outputs t i :
+  In i (path_outputs t) <-> exists o, In o (all_outputs t) /\ o_type o <> ODocker /\ o_id o = i.
 Proof.
-  unfold file_outputs. rewrite in_map_iff. split.
+  unfold path_outputs. rewrite in_map_iff. split.
   - intros [o [E H]]. apply filter_In in H as [H1 H2]. exists o. repeat split; auto.
-    unfold is_file in H2. destruct (o_type o); try discriminate; reflexivity.
+    unfold is_path in H2. intro Hk. rewrite Hk in H2. discriminate.
   - intros [o [H1 [H2 E]]]. exists o. split; [exact E|]. apply filter_In. split; [exact H1|].
-    unfold is_file. rewrite H2. reflexivity.
+    unfold is_path. destruct (o_type o); try reflexivity. contradiction.
 Qed.
 
-Theorem file_outputs_iff rootc g : Forall plain_comp rootc ->
-  (has_bad_output rootc g = false <-> file_outputs_ok rootc g).
-Proof.
-  intro Hr. unfold has_bad_output, file_outputs_ok. rewrite existsb_false. split.
-  - intros H t o Ht Ho Hf. apply in_targets_of in Ht. specialize (H t Ht). rewrite existsb_false in H.
-    apply (bad_path_false rootc t o Hr). apply H. apply in_file_outputs. exists o; auto.
-  - intros H t Ht. apply in_targets_of in Ht. apply existsb_false. intros i Hi.
-    apply in_file_outputs in Hi as [o [H1 [H2 <-]]]. apply (bad_path_false rootc t o Hr). eapply H; eassumption.
-Qed.
-
-Lemma outputs_ok_split rootc g :
-  outputs_ok rootc g <-> file_outputs_ok rootc g /\ dir_outputs_checked rootc g.
-Proof.
-  unfold outputs_ok, file_outputs_ok, dir_outputs_checked. split.
-  - intro H. split; intros t o Ht Ho Ho'; apply H; auto; rewrite Ho'; discriminate.
-  - intros [Hf Hd] t o Ht Ho Hk. destruct (o_type o) eqn:E; [apply Hf | apply Hd | contradiction]; auto.
-Qed.
-
-(* guarded: directory outputs pass the same test *)
-Theorem outputs_iff_partial rootc g : Forall plain_comp rootc -> dir_outputs_checked rootc g ->
+(* every path output, file or directory, is tested *)
+Theorem outputs_iff rootc g : Forall plain_comp rootc ->
   (has_bad_output rootc g = false <-> outputs_ok rootc g).
 Proof.
-  intros Hr Hd. rewrite outputs_ok_split, (file_outputs_iff rootc g Hr). tauto.
+  intro Hr. unfold has_bad_output, outputs_ok. rewrite existsb_false. split.
+  - intros H t o Ht Ho Hk. apply in_targets_of in Ht. specialize (H t Ht). rewrite existsb_false in H.
+    apply (bad_path_false rootc t o Hr). apply H. apply in_path_outputs. exists o; auto.
+  - intros H t Ht. apply in_targets_of in Ht. apply existsb_false. intros i Hi.
+    apply in_path_outputs in Hi as [o [H1 [H2 <-]]]. apply (bad_path_false rootc t o Hr). eapply H; eassumption.
 Qed.
 
 (* inputs and outputs together *)
-Theorem paths_files_iff rootc g : Forall plain_comp rootc ->
-  (has_bad_input g = false /\ has_bad_output rootc g = false <-> inputs_ok g /\ file_outputs_ok rootc g).
-Proof. intro Hr. rewrite inputs_iff, (file_outputs_iff rootc g Hr). tauto. Qed.
-
-Theorem paths_iff_partial rootc g : Forall plain_comp rootc -> dir_outputs_checked rootc g ->
+Theorem paths_iff rootc g : Forall plain_comp rootc ->
   (has_bad_input g = false /\ has_bad_output rootc g = false <-> inputs_ok g /\ outputs_ok rootc g).
-Proof. intros Hr Hd. rewrite inputs_iff, (outputs_iff_partial rootc g Hr Hd). tauto. Qed.
+Proof. intro Hr. rewrite inputs_iff, (outputs_iff rootc g Hr). tauto. Qed.
 
 (* ------------------------------------------------------------------ tests have commands *)
 Theorem test_nocmd_iff g : has_test_nocmd g = false <-> tests_have_commands g.
@@ -287,7 +270,8 @@ Proof.
     apply (ordered_iff g _ _ Hnd Hdg) in E. contradiction.
 Qed.
 
-(* string tests of the code vs places, for outputs that are "plain" (guard G2) *)
+(* string tests of the code vs places, for outputs whose spelling never climbs above the
+   workspace root (guard G2); the root itself, written ".", is covered *)
 
 Lemma is_prefix_app rootc a b : is_prefix (rootc ++ a) (rootc ++ b) <-> is_prefix a b.
 Proof.
@@ -299,14 +283,17 @@ Qed.
 Lemma plain_facts rootc t o :
   Forall plain_comp rootc -> is_abs (lpkg (t_label t)) = false -> is_abs (o_id o) = false ->
   plain_output t o ->
-  exists r, r <> [] /\ Forall plain_comp r /\
-            clean_output_path (lpkg (t_label t)) (o_id o) = join slash r /\
+  exists r, Forall plain_comp r /\
+            clean_output_path (lpkg (t_label t)) (o_id o) = render_rel r /\
             location rootc (lpkg (t_label t)) (o_id o) = rootc ++ r.
 Proof.
-  intros Hr Hp Hi [c [cs Hres]]. exists (c :: cs). split; [discriminate|]. split.
+  intros Hr Hp Hi Hpl. unfold plain_output in Hpl.
+  destruct (resolve_from [] (split_slash (lpkg (t_label t)) ++ split_slash (o_id o))) as [r|] eqn:Hres;
+    [|contradiction].
+  exists r. split.
   - exact (resolve_from_split2_plain _ _ _ Hres).
   - split.
-    + apply clean_output_path_plain; auto.
+    + apply clean_output_path_rel; auto.
     + apply location_plain; auto.
 Qed.
 
@@ -322,16 +309,16 @@ Proof.
   destruct (o_type o1) eqn:E1, (o_type o2) eqn:E2; simpl;
     try (split; [discriminate | intros []]); try apply str_eqb_eq;
     (destruct H1 as [Ha1 Hpl1]; [discriminate|]); (destruct H2 as [Ha2 Hpl2]; [discriminate|]);
-    destruct (plain_facts rootc t1 o1 Hr Hp1 Ha1 Hpl1) as [r1 [Hn1 [Hf1 [Hc1 Hl1]]]];
-    destruct (plain_facts rootc t2 o2 Hr Hp2 Ha2 Hpl2) as [r2 [Hn2 [Hf2 [Hc2 Hl2]]]];
+    destruct (plain_facts rootc t1 o1 Hr Hp1 Ha1 Hpl1) as [r1 [Hf1 [Hc1 Hl1]]];
+    destruct (plain_facts rootc t2 o2 Hr Hp2 Ha2 Hpl2) as [r2 [Hf2 [Hc2 Hl2]]];
     rewrite Hc1, Hc2, Hl1, Hl2.
   - (* file, file *) rewrite str_eqb_eq. split.
-    + intro H. apply join_slash_inj in H; auto. congruence.
+    + intro H. apply render_rel_inj in H; auto. congruence.
     + intro H. apply app_inv_head in H. congruence.
-  - (* file, dir *) rewrite is_prefix_app. apply path_within_comps; auto.
-  - (* dir, file *) rewrite is_prefix_app. apply path_within_comps; auto.
+  - (* file, dir *) rewrite is_prefix_app. apply path_within_rel; auto.
+  - (* dir, file *) rewrite is_prefix_app. apply path_within_rel; auto.
   - (* dir, dir *) unfold paths_overlap. rewrite orb_true_iff, !is_prefix_app.
-    rewrite (path_within_comps r1 r2), (path_within_comps r2 r1); auto. unfold is_prefix. tauto.
+    rewrite (path_within_rel r1 r2), (path_within_rel r2 r1); auto. unfold is_prefix. tauto.
 Qed.
 
 Lemma overlap_sym p q : overlap p q -> overlap q p.
@@ -426,22 +413,23 @@ Proof.
 Qed.
 
 (* C11, guarded: what grog accepts is exactly what is free of the listed defects, provided
-   (G1) directory outputs obey the rule the code checks for file outputs only,
-   (G2) every path output, read from the workspace root, stays below the root,
+   (G2) no path output, read from the workspace root, climbs above the root on the way,
    (G3) no target declares two overlapping outputs of its own.
-   The root is a clean absolute path, package paths are relative. *)
+   The root is a clean absolute path, package paths are relative.  (The former guard G1 --
+   directory outputs inside the workspace -- is gone: the code checks them; the former second
+   half of G2 -- no output IS the root -- is gone: pathWithin knows ".".) *)
 Theorem sound_complete_partial rootc g :
   clean_root rootc -> rel_pkgs g ->
-  dir_outputs_checked rootc g -> plain_outputs g -> no_self_overlap rootc g ->
+  plain_outputs g -> no_self_overlap rootc g ->
   (validate rootc g = Accept <-> defect_free rootc g).
 Proof.
-  intros [_ Hr] Hpk G1 G2 G3.
+  intros [_ Hr] Hpk G2 G3.
   rewrite validate_accept, classes_nil, graph_classes_nil, constraint_classes_nil.
   unfold defect_free. split.
   - intros [Hd [[Hm [Hs [Hc Hx]]] [Hi [Ho [Ht Hb]]]]].
     apply dup_iff in Hd. apply missing_iff in Hm.
     assert (Hac : acyclic g) by (apply cycle_iff; auto).
-    assert (Hout : outputs_ok rootc g) by (apply (outputs_iff_partial rootc g Hr G1); exact Ho).
+    assert (Hout : outputs_ok rootc g) by (apply (outputs_iff rootc g Hr); exact Ho).
     assert (Hro : rel_outputs g) by (intros t o H1 H2 H3; apply (Hout t o H1 H2 H3)).
     split; [exact Hd|]. split; [exact Hm|]. split; [exact Hac|].
     split; [apply (conflict_iff_partial rootc g Hd Hm Hr Hpk Hro G2 G3); exact Hx|].
@@ -454,7 +442,7 @@ Proof.
     + split; [apply missing_iff; exact Hm|]. split; [exact Hs|]. split; [exact Hc|].
       apply (conflict_iff_partial rootc g Hd Hm Hr Hpk Hro G2 G3). exact Hx.
     + split; [apply inputs_iff; exact Hi|].
-      split; [apply (outputs_iff_partial rootc g Hr G1); exact Hout|].
+      split; [apply (outputs_iff rootc g Hr); exact Hout|].
       split; [apply test_nocmd_iff; exact Ht | apply (deprules_iff g Hd Hac); exact Hb].
 Qed.
 
@@ -507,29 +495,28 @@ Definition tgt (n : string) (outs : list output) (bin : string) : target :=
 Lemma root_clean : clean_root root.
 Proof. split; [discriminate | repeat constructor; apply plain_compb_true; reflexivity]. Qed.
 
-(* F1: a directory output outside the workspace is accepted *)
+(* former F1 (repaired): a directory output outside the workspace *)
 Definition g_dir_escape : nodes := [NTarget (tgt "a" [mkOut ODir (lit "../../outside")] "")].
 (* F2: one target, directory output + bin output inside it: no listed defect, rejected *)
 Definition g_same_target : nodes := [NTarget (tgt "a" [mkOut ODir (lit "dist")] "dist/app")].
 (* F3: two unordered targets write the file p1/a; one spells it by leaving and re-entering the workspace *)
 Definition g_reentrant : nodes :=
   [NTarget (tgt "a" [mkOut OFile (lit "a")] ""); NTarget (tgt "b" [mkOut OFile (lit "../../ws/p1/a")] "")].
-(* F4: a directory output that is the workspace root next to an unordered writer inside it *)
+(* former F4 (repaired): a directory output that is the workspace root next to an unordered writer inside it *)
 Definition g_root_dir : nodes :=
   [NTarget (tgt "a" [mkOut OFile (lit "a")] ""); NTarget (tgt "b" [mkOut ODir (lit "..")] "")].
 
 Lemma no_deps_1 t : forall nd, In nd [NTarget t] -> t_deps t = [] -> node_deps nd = [].
 Proof. intros nd [<-|[]] H; exact H. Qed.
 
-Theorem dir_escape_refuted :
-  exists rootc g, clean_root rootc /\ rel_pkgs g /\ validate rootc g = Accept /\ ~ outputs_ok rootc g.
+(* the former witness of F1 is rejected for its output path, and rightly so *)
+Example dir_escape_rejected :
+  validate root g_dir_escape = Reject [OutputPath] /\ ~ outputs_ok root g_dir_escape.
 Proof.
-  exists root, g_dir_escape. split; [exact root_clean|]. split.
-  - intros t [E|[]]. inversion E; subst. reflexivity.
-  - split; [vm_compute; reflexivity|]. intro H.
-    specialize (H (tgt "a" [mkOut ODir (lit "../../outside")] "") (mkOut ODir (lit "../../outside"))
-                  (or_introl eq_refl) (or_introl eq_refl)).
-    destruct H as [_ [r Hr]]; [discriminate|]. vm_compute in Hr. discriminate Hr.
+  split; [vm_compute; reflexivity|]. intro H.
+  specialize (H (tgt "a" [mkOut ODir (lit "../../outside")] "") (mkOut ODir (lit "../../outside"))
+                (or_introl eq_refl) (or_introl eq_refl)).
+  destruct H as [_ [r Hr]]; [discriminate|]. vm_compute in Hr. discriminate Hr.
 Qed.
 
 Lemma g_same_target_defect_free : defect_free root g_same_target.
@@ -555,15 +542,14 @@ Qed.
 
 Definition only_files (g : nodes) : Prop :=
   forall t o, In (NTarget t) g -> In o (all_outputs t) -> o_type o = OFile.
-Definition never_above_root (g : nodes) : Prop :=
-  forall t o, In (NTarget t) g -> In o (all_outputs t) ->
-    resolve_from [] (split_slash (lpkg (t_label t)) ++ split_slash (o_id o)) <> None.
 
 Theorem reentrant_refuted :
-  exists rootc g, clean_root rootc /\ validate rootc g = Accept /\
+  exists rootc g, clean_root rootc /\ rel_pkgs g /\ validate rootc g = Accept /\
                   outputs_ok rootc g /\ only_files g /\ ~ no_conflict rootc g.
 Proof.
-  exists root, g_reentrant. split; [exact root_clean|]. split; [vm_compute; reflexivity|].
+  exists root, g_reentrant. split; [exact root_clean|].
+  split. { intros t [E|[E|[]]]; inversion E; subst; reflexivity. }
+  split; [vm_compute; reflexivity|].
   split.
   { intros t o [E|[E|[]]] Ho _; inversion E; subst; destruct Ho as [<-|[]]; (split; [reflexivity|]);
       exists [lit "p1"; lit "a"]; vm_compute; reflexivity. }
@@ -582,17 +568,8 @@ Proof.
   - revert Hr. apply two_no_reach; reflexivity.
 Qed.
 
-Theorem root_dir_refuted :
-  exists rootc g, clean_root rootc /\ validate rootc g = Accept /\
-                  outputs_ok rootc g /\ never_above_root g /\ ~ no_conflict rootc g.
+Lemma g_root_dir_conflict : ~ no_conflict root g_root_dir.
 Proof.
-  exists root, g_root_dir. split; [exact root_clean|]. split; [vm_compute; reflexivity|].
-  split.
-  { intros t o [E|[E|[]]] Ho _; inversion E; subst; destruct Ho as [<-|[]]; (split; [reflexivity|]).
-    - exists [lit "p1"; lit "a"]; vm_compute; reflexivity.
-    - exists []; vm_compute; reflexivity. }
-  split.
-  { intros t o [E|[E|[]]] Ho; inversion E; subst; destruct Ho as [<-|[]]; vm_compute; discriminate. }
   intro H.
   specialize (H (tgt "a" [mkOut OFile (lit "a")] "") (tgt "b" [mkOut ODir (lit "..")] "")
                 (mkOut OFile (lit "a")) (mkOut ODir (lit ".."))
@@ -606,15 +583,56 @@ Proof.
   - revert Hr. apply two_no_reach; reflexivity.
 Qed.
 
-(* the unguarded equivalence fails in both directions *)
+(* the former witness of F4 meets every guard of [sound_complete_partial] (the guards do not
+   exclude a directory output that is the workspace root), has a conflict, and is rejected for it *)
+Example root_dir_rejected :
+  clean_root root /\ rel_pkgs g_root_dir /\ plain_outputs g_root_dir /\ no_self_overlap root g_root_dir /\
+  outputs_ok root g_root_dir /\ ~ no_conflict root g_root_dir /\
+  validate root g_root_dir = Reject [Conflict].
+Proof.
+  split; [exact root_clean|].
+  split. { intros t [E|[E|[]]]; inversion E; subst; reflexivity. }
+  split. { intros t o [E|[E|[]]] Ho _; inversion E; subst; destruct Ho as [<-|[]]; vm_compute; discriminate. }
+  split. { intros t o1 o2 [E|[E|[]]] Hp; inversion E; subst; vm_compute in Hp; destruct Hp. }
+  split.
+  { intros t o [E|[E|[]]] Ho _; inversion E; subst; destruct Ho as [<-|[]]; (split; [reflexivity|]).
+    - exists [lit "p1"; lit "a"]; vm_compute; reflexivity.
+    - exists []; vm_compute; reflexivity. }
+  split; [exact g_root_dir_conflict | vm_compute; reflexivity].
+Qed.
+
+(* the guards of [sound_complete_partial] are met by an accepted graph with directory and file
+   outputs side by side (dist / dist2) *)
+Definition g_ok : nodes :=
+  [NTarget (tgt "a" [mkOut ODir (lit "dist")] ""); NTarget (tgt "b" [mkOut OFile (lit "dist2/app")] "x")].
+
+Example sound_complete_partial_nonvacuous :
+  clean_root root /\ rel_pkgs g_ok /\ plain_outputs g_ok /\ no_self_overlap root g_ok /\
+  validate root g_ok = Accept /\ defect_free root g_ok.
+Proof.
+  assert (H1 : rel_pkgs g_ok). { intros t [E|[E|[]]]; inversion E; subst; reflexivity. }
+  assert (H2 : plain_outputs g_ok).
+  { intros t o [E|[E|[]]] Ho _; inversion E; subst.
+    - destruct Ho as [<-|[]]; vm_compute; discriminate.
+    - destruct Ho as [<-|[<-|[]]]; vm_compute; discriminate. }
+  assert (H3 : no_self_overlap root g_ok).
+  { intros t o1 o2 [E|[E|[]]] Hp; inversion E; subst; vm_compute in Hp.
+    - destruct Hp.
+    - destruct Hp as [Hp|[]]. inversion Hp; subst. vm_compute. intro Hx. discriminate Hx. }
+  assert (H4 : validate root g_ok = Accept) by (vm_compute; reflexivity).
+  split; [exact root_clean|]. split; [exact H1|]. split; [exact H2|]. split; [exact H3|].
+  split; [exact H4|]. apply (sound_complete_partial root g_ok root_clean H1 H2 H3). exact H4.
+Qed.
+
+(* the unguarded equivalence still fails in both directions (F3, F2) *)
 Theorem sound_complete_refuted :
   (exists rootc g, clean_root rootc /\ rel_pkgs g /\ validate rootc g = Accept /\ ~ defect_free rootc g) /\
   (exists rootc g, clean_root rootc /\ rel_pkgs g /\ defect_free rootc g /\ validate rootc g <> Accept).
 Proof.
   split.
-  - destruct dir_escape_refuted as [rootc [g [H1 [H2 [H3 H4]]]]]. exists rootc, g.
+  - destruct reentrant_refuted as [rootc [g [H1 [H2 [H3 [_ [_ H6]]]]]]]. exists rootc, g.
     split; [exact H1|]. split; [exact H2|]. split; [exact H3|].
-    intros [_ [_ [_ [_ [_ [Ho _]]]]]]. exact (H4 Ho).
+    intros [_ [_ [_ [Hc _]]]]. exact (H6 Hc).
   - exists root, g_same_target. split; [exact root_clean|]. split.
     + intros t [E|[]]. inversion E; subst. reflexivity.
     + split; [exact g_same_target_defect_free | vm_compute; discriminate].
